@@ -38,15 +38,34 @@
       costs are non-decreasing (this is the step that makes `_cost_lists_derivation[args]` sorted);
       C03_Cd_successors_cost — the successor loop of the machine respects that discipline when the cost lists of the
       argument non-terminals are non-decreasing (every pushed successor costs at least the popped CostTuple).
+  GLOBAL THEOREMS (section "global theorems" at the end of the file; exact rationals, acyclic grammars):
+    * C03_Cd_cost_lists_grow — the cost lists `_cost_lists_derivation[args]` only grow by appending, in every function
+      of the query block (every arithmetic), so a property of the final lists holds for all earlier ones;
+    * C03_Cd_order_machine — the heap layer of the order argument: every function of the query block keeps the order
+      invariant `OInv` (every heap `_queue_nt[S]` is a valid heap, all its elements cost at least every entry of
+      `_cost_lists_nt[S]`, every pending `Derivation` of a rule with arguments costs exactly
+      `w + _cost_lists_derivation[args][comb]`, every list `_cost_lists_nt[S]` is non-decreasing) PROVIDED the lists
+      `_cost_lists_derivation[args]` of the state it reaches are non-decreasing;
+    * C03_Cd_yield_index — a program yielded by `next` is stored in `_bank_nt[start][n]` for the current cost index
+      `n` of `generator()`, and `n` never decreases;
+    * C03_Cd_sorted_partial — THE CLAIMED COSTS NEVER DECREASE: from a new enumerator on an acyclic grammar, along `next`
+      calls, if the state the prologue produced satisfies the order invariant (Boolean `oinvB`) and the lists
+      `_cost_lists_derivation[args]` of the final state are non-decreasing (Boolean `derSortedB` — what C03_Cd_queue_sorted
+      and C03_Cd_successors_cost guarantee as long as every push stays inside the window of its queue, i.e. outside finding
+      C02-F5), then every list `_cost_lists_nt[S]` is non-decreasing and the programs are yielded in non-decreasing
+      order of the cost `_cost_lists_nt[start][n]` they are stored under.
   NOT proved (compared on every case against the integer costs and exact probabilities computed by
   the harness, with the slack 16 of the pinned tests): that the search keeps its pushes inside the
-  window (false: finding C02-F5); the order of the yielded sequence; prefix completeness.
+  window (false: finding C02-F5); that on the machine the window discipline makes `_cost_lists_derivation` sorted
+  (the queue layer is proved for protocol runs only); the distance between the claimed cost of a program and its
+  true cost (the merges accumulate along successor chains); recursive grammars; prefix completeness.
 -/
 import PS.Model.Enum.ConstantDelay
 import PS.Proofs.Enum.CDQueue
 import PS.Proofs.Enum.CDOrder
 import PS.Proofs.Enum.CDSlack
 import PS.Proofs.Enum.CDSorted
+import PS.Proofs.Enum.CDGOrderCheck
 namespace PS.C03Cd
 open PS PS.CD
 
@@ -286,5 +305,87 @@ example : ((Q.new (ratA true) 2000 4).bind fun q => (runOps true opsEx q []).map
       some [100, 101, 102, 1700] ∧
     ((Q.new (ratA true) 2000 4).map fun q => monotoneB true opsEx q 0) = some true := by
   constructor <;> decide +kernel
+
+/-! ## global theorems -/
+
+/-- the cost lists of the derivation queues only grow by appending (`CMono`), in every function of the query block -/
+theorem C03_Cd_cost_lists_grow {α : Type} (E : Env α) (f : Nat) : COk E f := cok_all E f
+
+/-- **the heap layer of the order argument on the machine** (exact rationals, acyclic grammar with rank function
+    `rank`).  `OInv E s L` (PS/Proofs/Enum/CDGOrderInv.lean): every heap `_queue_nt[S]` satisfies the heap invariant of
+    `heapq` for `Derivation.__lt__`, each of its elements costs at least every entry of `_cost_lists_nt[S]` and, for a
+    rule with arguments, exactly `w + _cost_lists_derivation[args][comb]`; every list `_cost_lists_nt[S]` is
+    non-decreasing; the popped elements `L` of suspended frames satisfy the same.  Every function of the query block
+    keeps it, provided the lists `_cost_lists_derivation[args]` of the state it reaches are non-decreasing. -/
+theorem C03_Cd_order_machine (E : Env Rat) (b : Bool) (hA : E.A = ratA b) (rank : NT → Nat) (hAcy : Acy E rank) (f : Nat) :
+    OOk E rank f := ook_all E b hA rank hAcy f
+
+/-- a yielded program is stored under the current cost index of `generator()`, which never decreases; the tables only
+    grow -/
+theorem C03_Cd_yield_index {α : Type} (E : Env α) (fuel : Nat) (g g' : Gen α) (out : Option Prog)
+    (h : next E fuel g = some (g', out)) (hY : YG E g) :
+    YG E g' ∧ g'.phase ≠ .fresh ∧ BMono g.st g'.st ∧ (g.phase ≠ .fresh → CMono g.st g'.st) ∧
+    (∀ p, out = some p → pidx g ≤ pidx g' ∧ InBankAt g'.st E.G.start (pidx g') p) := next_tables E fuel g g' out h hY
+
+theorem gen_new_fresh {α : Type} (E : Env α) (g : Gen α) (h : Gen.new E = some g) : g.phase = .fresh := by
+  unfold Gen.new at h
+  cases hi : St.init E with
+  | none => simp [hi] at h
+  | some s => simp only [hi, Option.map_some, Option.some.injEq] at h; subst h; rfl
+
+/-- **THE CLAIMED COSTS NEVER DECREASE** (partial: acyclic grammars, exact rationals, two Boolean hypotheses on states
+    of the run).  From a new enumerator, `k` calls of `next`: if the state the prologue produced satisfies the order
+    invariant (`oinvB`) and the cost lists `_cost_lists_derivation[args]` of the final state are non-decreasing
+    (`derSortedB`), then in the final state every cost list `_cost_lists_nt[S]` is non-decreasing, and the yielded
+    programs `ys` are in non-decreasing order of claimed cost: for `p` yielded before `q` there are cost indices
+    `ci ≤ cj` with `p ∈ _bank_nt[start][ci]`, `q ∈ _bank_nt[start][cj]` and
+    `_cost_lists_nt[start][ci] ≤ _cost_lists_nt[start][cj]`. -/
+theorem C03_Cd_sorted_partial (E : Env Rat) (b : Bool) (hA : E.A = ratA b) (rank : NT → Nat) (hacy : acyB E.G rank = true)
+    (fuel k : Nat) (g g' : Gen Rat) (ys : List Prog) (fin : Bool) (hnew : Gen.new E = some g)
+    (hstart : (prologue E fuel g.st).all (oinvB E) = true)
+    (h : take E fuel k g [] = some (g', ys, fin)) (hfin : derSortedB g'.st = true) (hk : g'.phase ≠ .fresh) :
+    (∀ S cl, AList.lookup S g'.st.costNt = some cl → cl.Pairwise (· ≤ ·)) ∧
+    (∀ cl, AList.lookup E.G.start g'.st.costNt = some cl →
+      ys.Pairwise fun p q => ∃ ci cj, InBankAt g'.st E.G.start ci p ∧ InBankAt g'.st E.G.start cj q ∧ ci ≤ cj ∧
+        ∀ a c, cl[ci]? = some a → cl[cj]? = some c → a ≤ c) := by
+  have hfresh := gen_new_fresh E g hnew
+  have hY : YG E g := by intro n fr he; rw [hfresh] at he; simp at he
+  have hAc : YAcc E g [] := ⟨by simp, by simp⟩
+  have hgo : GO E fuel g := by
+    refine ⟨fun _ s hs => oinvB_sound E s ?_, fun hne => absurd hfresh hne⟩
+    rw [hs] at hstart; simpa using hstart
+  have hO := (take_go E b hA rank (acyB_sound E rank hacy) fuel k g [] g' ys fin h hY hAc hgo (derSortedB_sound _ hfin)).2 hk
+  refine ⟨hO.sorted, ?_⟩
+  intro cl hcl
+  have hs := hO.sorted _ cl hcl
+  refine (take_tables E fuel k g [] g' ys fin h hY hAc).2.2.imp ?_
+  rintro p q ⟨ci, cj, h1, h2, h3⟩
+  refine ⟨ci, cj, h2, h3, h1, ?_⟩
+  intro a c ha hc
+  rcases Nat.lt_or_eq_of_le h1 with h4 | h4
+  · obtain ⟨hi, rfl⟩ := List.getElem?_eq_some_iff.mp ha
+    obtain ⟨hj, rfl⟩ := List.getElem?_eq_some_iff.mp hc
+    exact (List.pairwise_iff_getElem.mp hs) ci cj hi hj h4
+  · subst h4
+    rw [ha] at hc
+    simp only [Option.some.injEq] at hc
+    rw [hc]; exact Rat.le_refl
+
+/-- non-vacuity: S → f(A, A) (3) | a (1) | g(A) (2), A → x (1) | y (3) | h(B) (2), B → c (0) | d (2) (acyclic with
+    rank 2, 1, 0): the post-prologue state satisfies `oinvB`, the generator stops after the 21 programs of the language,
+    the final derivation cost lists are sorted, and the final cost list of the start symbol is
+    [1, 3, 4, 5, 6, 7, 8, 9, 10, 11] -/
+def gAcy : Gram :=
+  { start := 0,
+    rules := [(0, [(0, ([1, 1], 3)), (1, ([], 1)), (2, ([1], 2))]), (1, [(3, ([], 1)), (4, ([], 3)), (5, ([2], 2))]),
+              (2, [(6, ([], 0)), (7, ([], 2))])],
+    ty := [(0, 0), (1, 0), (2, 0)] }
+def envAcy : Env Rat := { A := ratArith, G := gAcy, k := 1, filter := fun _ => true }
+
+example : envAcy.A = ratA false := rfl
+
+example : ((Gen.new envAcy).map fun g => acyB gAcy (fun S => 2 - S) && (prologue envAcy 1000 g.st).all (oinvB envAcy) &&
+    ((take envAcy 1000 40 g []).map fun r => derSortedB r.1.st && r.2.1.length == 21 && r.2.2 &&
+      (AList.lookup 0 r.1.st.costNt == some [1, 3, 4, 5, 6, 7, 8, 9, 10, 11])).getD false) = some true := by decide +kernel
 
 end PS.C03Cd
